@@ -46,6 +46,8 @@ static const char *code_name(int code) {
   case JERR_BAD_DCT_COEF: return "BAD_DCT_COEF";
   case JERR_HUFF_MISSING_CODE: return "HUFF_MISSING_CODE";
   case JERR_NOT_COMPILED: return "NOT_COMPILED";
+  case JERR_FRACT_SAMPLE_NOTIMPL: return "FRACT_SAMPLE_NOTIMPL";
+  case JERR_CCIR601_NOTIMPL: return "CCIR601_NOTIMPL";
   default: { static char b[32]; snprintf(b, sizeof b, "E%d", code); return b; }
   }
 }
@@ -56,6 +58,8 @@ struct image {
 };
 
 struct cfg { int src_prev, opt, arith, ri, rows, prog, nscans; jpeg_scan_info scans[MAXSCANS]; };
+
+static unsigned char initbuf[1 << 16];   /* caller-owned first output buffer */
 
 static long cdiv(long a, long b) { return (a + b - 1) / b; }
 
@@ -121,9 +125,10 @@ static int write_from_arrays(struct image *im, struct cfg *cf, unsigned char **o
   struct jpeg_compress_struct ci;
   jvirt_barray_ptr arr[MAXC];
   int c, hmax = 1, vmax = 1;
-  *out = NULL; *outsize = 0; memset(&ci, 0, sizeof ci);
+  *out = initbuf; *outsize = sizeof initbuf; memset(&ci, 0, sizeof ci);
   ci.err = jpeg_std_error(&err->pub); err->pub.error_exit = my_exit; err->pub.emit_message = my_emit;
-  if (setjmp(err->jb)) { jpeg_destroy_compress(&ci); if (*out) { free(*out); *out = NULL; } return 1; }
+  /* on error the destination manager's current buffer is unknown to us: leak it (error path only) */
+  if (setjmp(err->jb)) { jpeg_destroy_compress(&ci); *out = NULL; return 1; }
   jpeg_create_compress(&ci);
   jpeg_mem_dest(&ci, out, outsize);
   ci.image_width = im->W; ci.image_height = im->H; ci.input_components = im->NC;
@@ -155,17 +160,17 @@ static int transcode(unsigned char *src, unsigned long srcsize, struct cfg *cf, 
   struct my_err derr;
   jvirt_barray_ptr *arr;
   volatile int created_c = 0;
-  *out = NULL; *outsize = 0; memset(&ci, 0, sizeof ci); memset(&di, 0, sizeof di);
+  *out = initbuf; *outsize = sizeof initbuf; memset(&ci, 0, sizeof ci); memset(&di, 0, sizeof di);
   di.err = jpeg_std_error(&derr.pub); derr.pub.error_exit = my_exit; derr.pub.emit_message = my_emit;
   ci.err = jpeg_std_error(&err->pub); err->pub.error_exit = my_exit; err->pub.emit_message = my_emit;
   if (setjmp(derr.jb)) {
     err->code = derr.code; err->parm = derr.parm;
     if (created_c) jpeg_destroy_compress(&ci);
-    jpeg_destroy_decompress(&di); if (*out) { free(*out); *out = NULL; } return 1;
+    jpeg_destroy_decompress(&di); *out = NULL; return 1;
   }
   if (setjmp(err->jb)) {
     if (created_c) jpeg_destroy_compress(&ci);
-    jpeg_destroy_decompress(&di); if (*out) { free(*out); *out = NULL; } return 1;
+    jpeg_destroy_decompress(&di); *out = NULL; return 1;
   }
   jpeg_create_decompress(&di);
   jpeg_create_compress(&ci); created_c = 1;
@@ -216,12 +221,12 @@ static int readback(unsigned char *jpg, unsigned long size, struct image *im, ch
   return res;
 }
 
-static int pixels(unsigned char *jpg, unsigned long size, int P, uint64_t *hash) {
+static int pixels(unsigned char *jpg, unsigned long size, int P, uint64_t *hash, int *code) {
   struct jpeg_decompress_struct di; struct my_err err; uint64_t h = 1469598103934665603ULL;
   void *volatile row = NULL;
   memset(&di, 0, sizeof di);
   di.err = jpeg_std_error(&err.pub); err.pub.error_exit = my_exit; err.pub.emit_message = my_emit;
-  if (setjmp(err.jb)) { jpeg_destroy_decompress(&di); free(row); return 1; }
+  if (setjmp(err.jb)) { *code = err.code; jpeg_destroy_decompress(&di); free(row); return 1; }
   jpeg_create_decompress(&di);
   jpeg_mem_src(&di, jpg, size);
   jpeg_read_header(&di, TRUE);
@@ -250,7 +255,7 @@ static int pixels(unsigned char *jpg, unsigned long size, int P, uint64_t *hash)
 
 static void do_script(char *line) {
   struct jpeg_compress_struct ci; struct my_err err; static jpeg_scan_info scans[MAXSCANS];
-  jvirt_barray_ptr arr[MAXC]; unsigned char *out = NULL; unsigned long outsize = 0;
+  jvirt_barray_ptr arr[MAXC]; unsigned char *out = initbuf; unsigned long outsize = sizeof initbuf;
   int NC, P, c, n; static char spec[1 << 18];
   spec[0] = 0; memset(&ci, 0, sizeof ci);
   if (sscanf(line, "script %d %d %262143s", &NC, &P, spec) < 2) { puts("?"); return; }
@@ -258,7 +263,7 @@ static void do_script(char *line) {
   ci.err = jpeg_std_error(&err.pub); err.pub.error_exit = my_exit; err.pub.emit_message = my_emit;
   if (setjmp(err.jb)) {
     printf("err %s %d\n", code_name(err.code), err.code == JERR_MISSING_DATA ? 0 : err.parm);
-    jpeg_destroy_compress(&ci); free(out); return;
+    jpeg_destroy_compress(&ci); return;
   }
   jpeg_create_compress(&ci);
   jpeg_mem_dest(&ci, &out, &outsize);
@@ -270,7 +275,7 @@ static void do_script(char *line) {
     arr[c] = (*ci.mem->request_virt_barray)((j_common_ptr)&ci, JPOOL_IMAGE, TRUE, 1, 1, 1);
   jpeg_write_coefficients(&ci, arr);
   printf("ok %s\n", ci.master->lossless ? "lossless" : ci.progressive_mode ? "progressive" : "sequential");
-  jpeg_destroy_compress(&ci); free(out);
+  jpeg_destroy_compress(&ci);
 }
 
 static void do_img(char *line) {
@@ -322,8 +327,9 @@ static void do_img(char *line) {
       rb = readback(out, outsize, &im, msg, sizeof msg, &warn);
       if (rb == 1) printf(" rb=1"); else printf(" rb=0@%s", msg);
       printf(" w=%ld", warn);
-      if (pixels(out, outsize, im.P, &h)) printf(" px=error"); else printf(" px=%016llx", (unsigned long long)h);
-      free(prev); prev = out; prevsize = outsize;
+      { int pc = 0; if (pixels(out, outsize, im.P, &h, &pc)) printf(" px=error:%s", code_name(pc)); else printf(" px=%016llx", (unsigned long long)h); }
+      free(prev); prev = malloc(outsize ? outsize : 1); memcpy(prev, out, outsize); prevsize = outsize;
+      if (out != initbuf) free(out);
     }
     free(cf);
     p = q;
